@@ -28,11 +28,11 @@ def build_binary(repo):
 
 
 def all_cases(pid, seed, tier="quick"):
+    """every case of every family: which property a failing case speaks about is decided by the case itself (its
+    `property` list), not by the family it lives in"""
     import importlib
     cs = []
     for fam, (mod, pids) in FAMILIES.items():
-        if pid not in pids:
-            continue
         try:
             m = importlib.import_module(mod)
         except ImportError:
@@ -41,27 +41,36 @@ def all_cases(pid, seed, tier="quick"):
     return cs
 
 
-def run(pid, binary, seed=0, only=None, workers=8, tier="quick"):
-    cs = [c for c in all_cases(pid, seed, tier) if only is None or c.name == only]
+def _props(r):
+    x = r.get("property")
+    return list(x) if isinstance(x, (list, tuple)) else [x]
+
+
+def run_all(binary, seed=0, only=None, workers=8, tier="quick"):
+    cs = [c for c in all_cases(None, seed, tier) if only is None or c.name == only]
     with ThreadPoolExecutor(max_workers=workers) as ex:
-        recs = list(ex.map(lambda c: c.run(binary), cs))
-    def _props(r):
-        x = r.get("property")
-        return list(x) if isinstance(x, (list, tuple)) else [x]
+        return list(ex.map(lambda c: c.run(binary), cs))
+
+
+def summarise(pid, recs, seed):
     failed = [r for r in recs if not r["ok"] and pid in _props(r)]
     other = [r for r in recs if not r["ok"] and pid not in _props(r)]
     errs = [r for r in recs if r.get("harness_error")]
     return {
         "label": "bounded stand-in: a finite family of concrete projects and operation sequences run against the binary built from the current tree; a pass proves nothing and is not counted among the discharged obligations",
-        "families": sorted(set(c.family for c in cs)),
+        "families": sorted(set(r["family"] for r in recs)),
         "cases": len(recs),
         "passed": sum(1 for r in recs if r["ok"] and not r.get("harness_error")),
         "failed": failed,
         "failed_for_other_properties": [{"case": r["case"], "property": r.get("property")} for r in other],
         "harness_errors": [{"case": r["case"], "error": r["harness_error"]} for r in errs],
-        "bound": "graphs of at most 26 targets (6 fixed shapes, 6 seeded random DAGs of 4..8 targets), file trees of at most 12 entries, operation sequences of at most 6 steps, seed %d" % seed,
+        "bound": "graphs of at most 26 targets plus five large ones (depth 200, width 300, 40x80, 30x60, a chain of 300 aggregates), file trees of at most 12 entries plus two large ones, operation sequences of at most 6 steps, seed %d" % seed,
         "sample_cases": [{"case": r["case"], "what": r["what"], "ok": r["ok"]} for r in recs[:6]],
     }
+
+
+def run(pid, binary, seed=0, only=None, workers=8, tier="quick"):
+    return summarise(pid, run_all(binary, seed, only, workers, tier), seed)
 
 
 if __name__ == "__main__":
